@@ -1,20 +1,58 @@
-"""python3 -m vf.seedtest <seed-dir> [tier] [Cxx ...] — apply a seeded change to /repo, run the repository's tests and the checks, undo it.
+"""python3 -m vf.seedtest <seed-dir> [quick|thorough] [Cxx ...] [--keep]
 
-Prints one line per check: DETECTED / missed, and the first violation keys.
+Applies a seeded change to /repo, runs the repository's own tests (guard off, gcc), runs the demonstration with the
+change, runs the named checks (default: the property in the directory name), undoes the change, runs the demonstration
+without the change. With --keep the seed is copied to /verif/seeded/<name>/ with a meta.json recording all of this.
 """
+import glob
 import json
 import os
+import shutil
 import subprocess
 import sys
 
 VERIF = os.path.dirname(os.path.dirname(os.path.abspath(__file__)))
+BASE = os.path.join(VERIF, "build", "baseline")
 
 
 def sh(cmd, **kw):
     return subprocess.run(cmd, shell=True, stdout=subprocess.PIPE, stderr=subprocess.STDOUT, cwd=VERIF, **kw).stdout.decode(errors="replace")
 
 
+def run_demo(d):
+    """returns (kind, output) for the demonstration of the seed"""
+    env = dict(os.environ)
+    env["LD_LIBRARY_PATH"] = ":".join([os.path.join(BASE, "blocc")] + [os.path.join(BASE, "modules", m) for m in ("csv", "file", "utf8", "sqlite3")])
+    env["BLOC"] = os.path.join(BASE, "apps", "bloc")
+    env["BLOC_BUILD"] = BASE
+    env["BLOC_SRC"] = "/repo"
+    outs = []
+    for f in sorted(glob.glob(os.path.join(d, "demo*"))):
+        try:
+            if f.endswith(".bloc"):
+                p = subprocess.run([env["BLOC"], f], stdout=subprocess.PIPE, stderr=subprocess.STDOUT, env=env, timeout=60, cwd=d)
+            elif f.endswith(".sh"):
+                p = subprocess.run(["sh", f], stdout=subprocess.PIPE, stderr=subprocess.STDOUT, env=env, timeout=300, cwd=d)
+            elif f.endswith(".cpp") or f.endswith(".c"):
+                exe = "/tmp/seed-demo-bin"
+                cc = ["g++", "-std=c++11"] if f.endswith(".cpp") else ["gcc"]
+                c = subprocess.run(cc + ["-I/repo", "-I" + os.path.join(BASE, "blocc", "include"), f, "-o", exe, "-L" + os.path.join(BASE, "blocc"), "-lblocc", "-lpthread", "-ldl"],
+                                   stdout=subprocess.PIPE, stderr=subprocess.STDOUT)
+                if c.returncode != 0:
+                    outs.append((os.path.basename(f), "COMPILE FAILED: " + c.stdout.decode(errors="replace")[-800:]))
+                    continue
+                p = subprocess.run([exe], stdout=subprocess.PIPE, stderr=subprocess.STDOUT, env=env, timeout=120, cwd=d)
+            else:
+                continue
+            outs.append((os.path.basename(f), "exit=%s\n%s" % (p.returncode, p.stdout.decode(errors="replace"))))
+        except subprocess.TimeoutExpired:
+            outs.append((os.path.basename(f), "TIMEOUT"))
+    return outs
+
+
 def main(argv):
+    keep = "--keep" in argv
+    argv = [a for a in argv if a != "--keep"]
     d = argv[0].rstrip("/")
     tier = "quick"
     checks = []
@@ -33,23 +71,61 @@ def main(argv):
         return 2
     r = subprocess.run(["git", "-C", "/repo", "apply", "--check", patch], stdout=subprocess.PIPE, stderr=subprocess.STDOUT)
     if r.returncode != 0:
-        print("patch does not apply: " + r.stdout.decode()[:500])
+        print("[%s] patch does not apply: %s" % (name, r.stdout.decode()[:500]))
         return 2
     subprocess.run(["git", "-C", "/repo", "apply", patch], check=True)
-    res = {"seed": name, "tier": tier}
+    res = {"seed": name, "property": name.split("-")[0], "tier": tier, "checks": {}}
     try:
         out = sh("./check --baseline-off 2>&1 | tail -4")
-        res["tests_pass"] = "100% tests passed" in out
-        print("[%s] repository tests with the change: %s" % (name, "pass" if res["tests_pass"] else "FAIL\n" + out))
+        res["repository_tests_pass_with_change"] = "100% tests passed" in out
+        print("[%s] repository tests with the change: %s" % (name, "pass" if res["repository_tests_pass_with_change"] else "FAIL\n" + out))
+        res["demo_with_change"] = run_demo(d)
         for c in checks:
             out = sh("./check %s %s 2>&1" % (c, tier))
             keys = [l.strip() for l in out.splitlines() if l.strip().startswith("key=")]
             nviol = sum(1 for l in out.splitlines() if l.startswith("VIOLATION"))
-            res[c] = {"detected": nviol > 0, "violations": nviol, "keys": keys[:5]}
-            print("[%s] %s %s: %s (%d violation keys) %s" % (name, c, tier, "DETECTED" if nviol else "missed", nviol, "; ".join(k[:160] for k in keys[:3])))
+            res["checks"][c] = {"tier": tier, "detected": nviol > 0, "violation_keys": nviol, "first_keys": [k[:200] for k in keys[:4]]}
+            print("[%s] %s %s: %s (%d violation keys) %s" % (name, c, tier, "DETECTED" if nviol else "missed", nviol, "; ".join(k[:140] for k in keys[:2])))
     finally:
         subprocess.run(["git", "-C", "/repo", "checkout", "--", "."], check=True)
-    print(json.dumps(res))
+    sh("./check --baseline-off 2>&1 | tail -2")
+    res["demo_without_change"] = run_demo(d)
+    differs = res["demo_with_change"] != res["demo_without_change"]
+    res["demo_differs"] = differs
+    print("[%s] demonstration output with vs without the change: %s" % (name, "differs" if differs else "SAME (demo does not show the change here)"))
+    if keep:
+        dst = os.path.join(VERIF, "seeded", name)
+        os.makedirs(dst, exist_ok=True)
+        for f in glob.glob(os.path.join(d, "*")):
+            if os.path.isfile(f) and os.path.getsize(f) < 200000:
+                shutil.copy(f, dst)
+        readme = ""
+        rp = os.path.join(d, "README.md")
+        if os.path.exists(rp):
+            readme = open(rp).read()
+        needs = ""
+        for line in readme.splitlines():
+            if "needed" in line.lower() or "manifest" in line.lower():
+                needs = line.strip("* ").strip()
+                break
+        meta = {"property": res["property"], "breaks": readme.splitlines()[0].lstrip("# ").strip() if readme else name,
+                "needs_to_manifest": needs, "origin": "written by a fresh sub-agent given only the property text and a scratch worktree",
+                "confirmed": {"patch_applies_to_repo_head": True, "repository_tests_pass_with_change": res["repository_tests_pass_with_change"],
+                              "demonstration_differs_with_vs_without": differs},
+                "ran": ["git -C /repo apply seeded/%s/patch.diff" % name, "./check --baseline-off"] + ["./check %s %s" % (c, tier) for c in checks] + ["git -C /repo checkout -- ."],
+                "checks": res["checks"]}
+        old = os.path.join(dst, "meta.json")
+        if os.path.exists(old):
+            try:
+                prev = json.load(open(old))
+                prev_checks = prev.get("checks", {})
+                for k, v in prev_checks.items():
+                    meta["checks"].setdefault(k, v)
+            except Exception:
+                pass
+        with open(old, "w") as f:
+            json.dump(meta, f, indent=1)
+    print(json.dumps({k: v for k, v in res.items() if not k.startswith("demo_w")}))
     return 0
 
 
